@@ -2145,6 +2145,35 @@ def run_state(ctx, h, case, tmp):
     gb = [("parameters", {"names": list(twin.parameter_names), "values": np.array(twin.parameter_values, dtype=float)}, 0.0, 0.0, "state.")] + result_groups(twin, "state.")
     if h.groups(ga, gb):
         h.verdict("state.results", True, {})
+        # a state file that belongs to a fit with one more parameter: load_state refuses it, and the fit keeps the state it had
+        try:
+            import yaml
+
+            doc = yaml.safe_load(open(p, encoding="utf8"))
+            if isinstance(doc.get("parameter_values"), list) and len(doc["parameter_values"]) >= 1:
+                k = len(doc["parameter_values"])
+                doc["parameter_values"] = [float(v) * 1.5 + 0.25 for v in doc["parameter_values"]] + [0.7]
+                if isinstance(doc.get("parameter_errors"), list):
+                    doc["parameter_errors"] = [float(v) * 3.0 + 0.1 for v in doc["parameter_errors"]] + [0.3]
+                for nm in ("parameter_cov_mat", "parameter_cor_mat"):
+                    if isinstance(doc.get(nm), list):
+                        doc[nm] = (np.eye(k + 1) * (2.0 if nm.endswith("cov_mat") else 1.0)).tolist()
+                foreign = os.path.join(tmp, "state-foreign.yml")
+                yaml.safe_dump(doc, open(foreign, "w", encoding="utf8"))
+                ctx.op("load_state.foreign")
+                refused = False
+                try:
+                    twin.load_state(foreign)
+                except Exception:
+                    refused = True
+                h.verdict("state.foreign-refused", refused, {"why": "a state with %d parameter values was accepted by a fit with %d parameters" % (k + 1, k)})
+                if refused and h.alive:
+                    gc = [("parameters", {"names": list(twin.parameter_names), "values": np.array(twin.parameter_values, dtype=float)}, 0.0, 0.0, "state.after-refused-load.")] + result_groups(twin, "state.after-refused-load.")
+                    h.groups(gb, gc)
+        except OSError:
+            pass
+        if not h.alive:
+            return
         # write-write on the state file: a second, shorter state replaces the first completely
         ctx.op("save_state")
         fresh = build_staged_fit(ctx, fc, count_ops=False)
